@@ -103,6 +103,17 @@ def run(R: Run):
             R.oracle(ai == (float(mi).is_integer() and (abs(mi - x) < tol)) or float(x).is_integer(), "almostint-vs-maybeint",
                      {"x": x, "tol": tol}, f"is_almost_int={ai} maybe_int={mi}", sig="helpers", trivial=True)
     for _ in range(R.pick(3000, 30000)):
+        k = rng.randint(-6, 6) + rng.choice([0, 0, 0.5])
+        tol = rng.choice([2**-6, 1e-3, 2**-10, 0.25])
+        x = k + rng.choice([1, -1]) * (rng.choice([0, tol]) + rng.choice([1, -1]) * 2.0**-rng.choice([20, 30, 34, 40, 44]))
+        R.corr(f"c10 almostint {frac_s(x)} {frac_s(tol)}", lambda: bool_s(M.is_almost_int(x, tol)), sig="almostint|edge")
+        R.corr(f"c10 maybeint {frac_s(x)} {frac_s(tol)}", lambda: frac_s(M.maybe_int(x, tol)), sig="maybeint|edge")
+        R.corr(f"c10 split {frac_s(x)}", lambda: " ".join(frac_s(v) for v in M.split_float(x)), sig="split|edge")
+    for x in (2.0**31 + 0.5, -(2.0**31) - 0.25, 2.0**40 + 0.125, 2.0**52 + 0.5, 2.0**53, -(2.0**63), 2.0**64, 2.0**100, 5e-324, 1e308):
+        for tol in (1e-3, 0.25):
+            R.corr(f"c10 almostint {frac_s(x)} {frac_s(tol)}", lambda: bool_s(M.is_almost_int(x, tol)), sig="almostint|huge")
+            R.corr(f"c10 maybeint {frac_s(x)} {frac_s(tol)}", lambda: frac_s(M.maybe_int(x, tol)), sig="maybeint|huge")
+    for _ in range(R.pick(3000, 30000)):
         base = rng.choice([1, 1, -1, 2, 3, -2, 0.5, 0.25, -0.5, 0.125, 1 / 64, 0])
         x = base + rng.choice([0, 0, 1, -1]) * 2.0**-rng.randint(5, 14)
         tol = rng.choice([1e-6, 1e-3, 2**-10, 2**-7, 2**-5])
@@ -116,14 +127,16 @@ def run(R: Run):
     def rnd_aff():
         kind = rng.choice(["st", "st", "st", "near", "near", "int", "frac", "rot", "tiny-rot", "mirror"])
         sgn = (rng.choice([1, 1, -1]), rng.choice([1, 1, -1]))
-        res = rng.choice([0, 0, 2**-6, -(2**-6), 2**-5, -(2**-5), 2**-4, 0.25, -0.25, 0.5, 3 * 2**-6])
+        res = rng.choice([0, 0, 2**-6, -(2**-6), 2**-5, -(2**-5), 2**-4, 0.25, -0.25, 0.5, 3 * 2**-6,
+                          2**-5 + 2.0**-40, 2**-5 - 2.0**-40, -(2**-4) + 2.0**-38, 2.0**-34, -(2.0**-40), 0.5 - 2.0**-30])
         tx, ty = rng.randint(-50, 50) + res, rng.randint(-50, 50) + (res if rng.random() < 0.5 else 0)
         b = d = 0
         if kind in ("st", "mirror"):
             sx = sy = 1
         elif kind == "near":
             k = rng.choice([1, 1, 2, 3])
-            sx, sy = (k + rng.choice([1, -1]) * 2.0**-rng.choice([9, 10, 11, 12]) for _ in range(2))
+            sx, sy = (k + rng.choice([1, -1]) * (2.0**-rng.choice([9, 10, 11, 12]) + rng.choice([0, 0, 2.0**-40, -(2.0**-40)]))
+                      for _ in range(2))
             tx, ty = k * tx, k * ty
         elif kind == "int":
             k = rng.choice([2, 3, 4, 5, 8])
